@@ -1340,8 +1340,16 @@ async fn run_openresponses_agent_loop(
             }
             tool_call_count += 1;
             let args_value = match serde_json::from_str::<Value>(&call.arguments) {
-                Ok(value) => value,
-                Err(_) => Value::String(call.arguments.clone()),
+                // Arguments nested too deeply to be stored in a frame are kept as text.
+                Ok(value)
+                    if !rip_provider_openresponses::json_nesting_exceeds(
+                        &value,
+                        rip_provider_openresponses::MAX_FRAME_PAYLOAD_NESTING,
+                    ) =>
+                {
+                    value
+                }
+                _ => Value::String(call.arguments.clone()),
             };
             let invocation = ToolInvocation {
                 name: call.name.clone(),
